@@ -11,6 +11,7 @@ import (
 	"reflect"
 	"runtime/debug"
 	"sort"
+	"strconv"
 	"strings"
 	"time"
 
@@ -61,6 +62,12 @@ type Runner struct {
 	ExtraHook func(name string, kv []any)
 	clock     int
 	clockReal map[int]int64
+	// wall-clock interval of every executed operation: edge timestamps are projected onto the operation
+	// that produced them (one operation may stamp several edges with slightly different times)
+	opIntervals [][2]int64
+	// Dirty: an uncommitted bulk import is in memory (documented to be lost by a restart until
+	// VImportCommit or another snapshot/compaction persists it)
+	Dirty bool
 }
 
 func NewRunner(p Profile, dir string) (*Runner, error) {
@@ -81,6 +88,7 @@ func (r *Runner) CloneAt(dir string) (*Runner, error) {
 	for k, v := range r.Minted {
 		c.Minted[k] = v
 	}
+	c.opIntervals = append(c.opIntervals, r.opIntervals...)
 	if err := c.open(); err != nil {
 		return nil, err
 	}
@@ -129,6 +137,9 @@ func (r *Runner) vec(tok string) []float32 {
 	d := r.P.Dim
 	if d <= 0 {
 		d = 3
+	}
+	if tok == "vbad" {
+		d += 2 // wrong dimension
 	}
 	v := make([]float32, d)
 	var base []float32
@@ -344,6 +355,11 @@ func propsToken(raw []byte) string {
 			return tok
 		}
 	}
+	if rs, ok := m["reason"].(string); ok && rs == "evolve-reason" && len(m) == 2 {
+		if _, ok := m["timestamp"]; ok {
+			return "pev" // properties VEvolve attaches to the superseded_by / evolves_from edges
+		}
+	}
 	return "?(" + string(raw) + ")"
 }
 
@@ -353,6 +369,8 @@ func weightOf(tok string) float32 {
 		return 1
 	case "w2":
 		return 0.25
+	case "w0":
+		return 0
 	}
 	return 0
 }
@@ -363,6 +381,8 @@ func weightToken(w float32) string {
 		return "w1"
 	case 0.25:
 		return "w2"
+	case 0:
+		return "w0"
 	}
 	return fmt.Sprintf("?(%v)", w)
 }
@@ -424,10 +444,25 @@ func (r *Runner) Exec(op map[string]any) (string, error) {
 		verifhook.Set(verifhook.Handler(r.ExtraHook))
 		defer verifhook.Set(nil)
 	}
+	tick()
+	t0 := time.Now().UnixNano()
 	out, err := r.exec(op)
+	tick()
+	r.opIntervals = append(r.opIntervals, [2]int64{t0, time.Now().UnixNano()})
+	if err == nil && out == "ok" {
+		switch str(op, "op") {
+		case "VImport":
+			r.Dirty = true
+		case "SaveSnapshot", "RewriteAOF", "VCompress", "VImportCommit":
+			r.Dirty = false
+		}
+	}
 	if err == nil {
 		switch str(op, "op") {
-		case "VLink", "VUnlink":
+		case "VLink", "VUnlink", "VEvolve":
+			if str(op, "op") == "VEvolve" && out != "ok" {
+				break
+			}
 			r.clock++
 			r.clockReal[r.clock] = time.Now().UnixNano()
 			tick()
@@ -495,6 +530,22 @@ func (r *Runner) exec(op map[string]any) (string, error) {
 			{Id: r.id(str(op, "id2")), Vector: r.vec(str(op, "v2")), Metadata: r.meta(um)},
 		}
 		return res(e.VAddBatch(str(op, "n"), items))
+	case "VImport":
+		um, _ := op["meta"].(map[string]any)
+		items := []types.BatchObject{
+			{Id: r.id(str(op, "id1")), Vector: r.vec(str(op, "v1")), Metadata: r.meta(um)},
+			{Id: r.id(str(op, "id2")), Vector: r.vec(str(op, "v2")), Metadata: r.meta(um)},
+		}
+		return res(e.VImport(str(op, "n"), items))
+	case "VImportCommit":
+		return res(e.VImportCommit(str(op, "n")))
+	case "VEvolve":
+		um, _ := op["meta"].(map[string]any)
+		newID, err := e.VEvolve(str(op, "n"), r.id(str(op, "old")), r.vec(str(op, "vec")), r.meta(um), "evolve-reason")
+		if err == nil {
+			r.Minted[str(op, "new")] = newID
+		}
+		return res(err)
 	case "VDelete":
 		tick()
 		done := make(chan struct{}, 4)
@@ -553,6 +604,21 @@ func (r *Runner) exec(op map[string]any) (string, error) {
 		}
 		return "ok", nil
 	case "VSetMetadata":
+		if str(op, "k") == "_access_count" {
+			// a caller-written counter (migrated data): the value is the number itself, handed over in
+			// one of the Go numeric types the embedded API accepts
+			n, _ := strconv.Atoi(str(op, "v"))
+			var v any
+			switch r.P.Variant % 3 {
+			case 0:
+				v = n
+			case 1:
+				v = int64(n)
+			default:
+				v = float64(n)
+			}
+			return res(e.VSetMetadata(str(op, "n"), r.id(str(op, "id")), map[string]any{"_access_count": v}))
+		}
 		return res(e.VSetMetadata(str(op, "n"), r.id(str(op, "id")), map[string]any{str(op, "k"): r.mval(str(op, "v"))}))
 	case "VReinforce":
 		return res(e.VReinforce(str(op, "n"), []string{r.id(str(op, "id"))}))
@@ -568,13 +634,13 @@ func (r *Runner) exec(op map[string]any) (string, error) {
 		return res(e.VCompress(str(op, "n"), distance.PrecisionType(str(op, "p"))))
 	case "VLink":
 		tick()
-		err := e.VLink(r.P.GName, str(op, "s"), str(op, "t"), str(op, "r"), optStr(op, "inv"), weightOf(str(op, "w")), propsOf(optStr(op, "p")))
+		err := e.VLink(r.P.GName, r.id(str(op, "s")), r.id(str(op, "t")), str(op, "r"), optStr(op, "inv"), weightOf(str(op, "w")), propsOf(optStr(op, "p")))
 		tick()
 		return res(err)
 	case "VUnlink":
 		tick()
 		hard, _ := op["hard"].(bool)
-		err := e.VUnlink(r.P.GName, str(op, "s"), str(op, "t"), str(op, "r"), optStr(op, "inv"), hard)
+		err := e.VUnlink(r.P.GName, r.id(str(op, "s")), r.id(str(op, "t")), str(op, "r"), optStr(op, "inv"), hard)
 		tick()
 		return res(err)
 	case "GraphVacuum":
@@ -774,7 +840,7 @@ func (r *Runner) metaTokens(m map[string]any) map[string]any {
 	for _, k := range r.P.MKeys {
 		out[k] = Nil
 	}
-	for _, k := range []string{"_created_at", "_access_count", "_last_accessed"} {
+	for _, k := range []string{"_created_at", "_access_count", "_last_accessed", "_is_historical"} {
 		out[k] = Nil
 	}
 	now := float64(time.Now().Unix())
@@ -786,10 +852,21 @@ func (r *Runner) metaTokens(m map[string]any) map[string]any {
 			} else {
 				out[k] = fmt.Sprintf("?(%v)", v)
 			}
+		case "_is_historical":
+			out[k] = fmt.Sprintf("%v", v)
 		case "_access_count":
-			if f, ok := v.(float64); ok && f == math.Trunc(f) {
-				out[k] = fmt.Sprintf("%d", int(f))
-			} else {
+			switch x := v.(type) {
+			case float64:
+				if x == math.Trunc(x) {
+					out[k] = fmt.Sprintf("%d", int(x))
+				} else {
+					out[k] = fmt.Sprintf("?(%v)", v)
+				}
+			case int:
+				out[k] = fmt.Sprintf("%d", x)
+			case int64:
+				out[k] = fmt.Sprintf("%d", x)
+			default:
 				out[k] = fmt.Sprintf("?(%v)", v)
 			}
 		default:
